@@ -13,7 +13,7 @@ PROP = 'C01'
 META = dict(
     explanation='Differential, real code on both sides: for a pipeline P of dual-mode operators and N symbolic (group, value) pairs, the per-group outputs of with_memory_store([group_by(key, P)]) (bucketed by a tap at the tail of the inner pipeline) '
                 'must equal, items and order, what rx.from_(values of that group).pipe(*P) emits on a plain observable. The group of each item is a solver variable (concretised by a comparison cascade), so every interleaving of <= G groups is a path. '
-                'A second form compares with_memory_store(P) on the root key with the plain run; a third takes the keys from split / roll (successive lifetimes on one re-used key slot) and compares every lifetime with the plain run on its items. Programs: every dual-mode catalogue operator alone, seeded type-correct compositions to depth 3, tee_map with the three joins over depth-1/2 branches. '
+                'A second form compares with_memory_store(P) on the root key with the plain run; a third spreads the pipeline over two chained with_memory_store stages; a fourth takes the keys from split / roll (successive lifetimes on one re-used key slot) and compares every lifetime with the plain run on its items. Programs: every dual-mode catalogue operator alone, seeded type-correct compositions to depth 3, tee_map with the three joins over depth-1/2 branches. '
                 'Float-valued operators (sum, mean, variance, stddev, formal.*) are run with z3 Real terms as items at native speed (z3x family): mux and plain output terms must be identical or provably equal.',
     bounds=dict(quick='N <= 3 items, G <= 2 groups, |v| <= 2^40; ~37 single operators, 30 seeded depth-2, 12 seeded depth-3, 9 tee_map programs; z3x: N <= 5, G <= 3',
                 thorough='N <= 4, G <= 3 (N <= 5 for branch-free pipelines); 300 seeded programs; z3x: N <= 7, G <= 3'),
@@ -91,6 +91,46 @@ def lifetimes(p):
                 return fail(pipeline=C.show(desc), parent=parent, items=items, lifetime_items=i, observed=o, expected=exp)
         return True
     return mk('lifetimes', [('v%d' % i, 'int') for i in range(n)], pre, body)
+
+
+def two_stores(p):
+    """the pipeline is spread over two chained with_memory_store stages on one multiplexed source (hand-built mux events, solver-chosen key per item):
+    the states of the second stage must live in the second store"""
+    desc, n, g, cut = p['desc'], p['n'], p['g'], p['cut']
+    sig = []
+    pre = []
+    for i in range(n):
+        sig += [('k%d' % i, 'int'), ('v%d' % i, 'int')]
+        pre += ['0 <= k%d <= %d' % (i, g - 1), '-2**40 <= v%d <= 2**40' % i]
+
+    def body(a):
+        items = [(conc(a[2 * i], g), a[2 * i + 1]) for i in range(n)]
+        order = []
+        for k, _ in items:
+            if k not in order:
+                order.append(k)
+        ev = [rs.OnCreateMux((k,)) for k in order] + [rs.OnNextMux((k,), v) for k, v in items] + [rs.OnCompletedMux((k,)) for k in order]
+        log, err = [], []
+
+        def sub(observer, scheduler=None):
+            for e in ev:
+                observer.on_next(e)
+            observer.on_completed()
+        real = C.build(desc)[0]
+        # build() returns a flat operator list: cut it after `cut` catalogue entries
+        first = C.build(desc[:cut])[0]
+        second = C.build(desc[cut:])[0]
+        rs.MuxObservable(sub).pipe(rs.state.with_memory_store(first), rs.state.with_memory_store(second + [D.tap(log)])).subscribe(on_error=lambda e: err.append(type(e).__name__))
+        for k in order:
+            vals = [v for kk, v in items if kk == k]
+            exp = _plain(vals, desc)
+            got = [e[2] for e in log if e[0] == 'n' and e[1] == k]
+            if exp and exp[-1] == ('ERR', EMPTY_ERR):
+                continue
+            if got != exp or err:
+                return fail(pipeline=C.show(desc), stores_cut_after=cut, items=items, group=k, group_items=vals, observed=got, expected=exp, stream_error=err)
+        return True
+    return mk('two_stores', sig, pre, body)
 
 
 def root(p):
@@ -245,7 +285,7 @@ class Floats(object):
         return dict(reproduced=diff is not None, detail=diff or {})
 
 
-FAMILIES = {'grouped': grouped, 'root': root, 'asserting': asserting, 'floats': Floats, 'lifetimes': lifetimes}
+FAMILIES = {'grouped': grouped, 'root': root, 'asserting': asserting, 'floats': Floats, 'lifetimes': lifetimes, 'two_stores': two_stores}
 
 
 def _tee_ok(desc, in_tee=False):
@@ -320,6 +360,10 @@ def obligations(tier, seed):
                 while nn > 2 and br ** nn > (40 if q else 300):
                     nn -= 1
                 obs.append(Ob(PROP, 'lifetimes', dict(desc=d, n=nn, parent=parent), budget=b, group='lifetimes:' + parent, bound=dict(items=nn, parent=parent, pipeline=C.show(d))))
+    ts = [[['take2'], ['count'], ['map_inc']], [['scan_add'], ['first'], ['scan_max']], [['duc'], ['take1'], ['to_list_sum']], [['batch2_sum'], ['last']], [['count'], ['scan_add_r']]]
+    for d in ts:
+        for cut in range(1, len(d)):
+            obs.append(Ob(PROP, 'two_stores', dict(desc=d, n=3 if q else 4, g=2, cut=cut), budget=b, group='two_stores', bound=dict(items=3 if q else 4, groups=2, pipeline=C.show(d), second_store_after=cut)))
     for op in ('assert_', 'assert_1'):
         for n in ((2, 3) if q else (2, 3, 4)):
             obs.append(Ob(PROP, 'asserting', dict(op=op, n=n), budget=b, bound=dict(items=n, values='0..3')))
